@@ -312,11 +312,22 @@ ERR_CLAUSES = [
     ('content-and-replace', '<div tal:content="1" tal:replace="2">a</div>'),
     ('end-without-start', '<div>a</b></div>'),
     ('i18n-duplicate', '<div i18n:attributes="title; title">a</div>'),
+    ('repeat-two-clauses', '<div tal:repeat="x a; y b">k</div>'),
+    ('interpolation-in-pi', '<div><?foo a ${1 +} ?></div>'),
+    ('empty-repeat', '<div tal:repeat="">k</div>'),
+    ('empty-content', '<div tal:content="">k</div>'),
+    ('fill-slot-outside-use', '<div metal:fill-slot="x">k</div>'),
+    ('name-outside-translate', '<div i18n:name="x">k</div>'),
     # expressions written over several lines
     ('multiline-content', '<div tal:content="1 +\n  2 +">a</div>'),
     ('multiline-interpolation', '<div>${1 +\n 2 +}</div>'),
     ('multiline-define-part', '<div tal:define="x 1;\n y 2 +\n 3 +">a</div>'),
 ]
+
+
+class NotATemplateError(Exception):
+    """a rejection that is not derived from TemplateError (a located error is what the property asks for)"""
+    token = None
 
 
 def _compile_error(text):
@@ -329,10 +340,14 @@ def _compile_error(text):
             PageTemplate(text)
         except TemplateError as exc:
             return exc
+        except Exception as exc:
+            return NotATemplateError(repr(exc))
         return None
 
 
 def _located(exc, text):
+    if isinstance(exc, NotATemplateError):
+        return False
     t = exc.token
     if not hasattr(t, 'pos') or t.source is None:
         return False
